@@ -311,7 +311,7 @@ impl Layer {
         let height = u32::from_le_bytes(data[13..17].try_into().unwrap()) as usize;
         let mut data = &data[17..];
         // every cell record has 14 bytes
-        if width.checked_mul(height)?.checked_mul(14)? > data.len() {
+        if width == 0 || height == 0 || width.checked_mul(height)?.checked_mul(14)? > data.len() {
             return None;
         }
 
